@@ -4,3 +4,4 @@ CONSTANTS
   Vals <- ValsThorough
 INVARIANT Identities
 INVARIANT GateTable
+INVARIANT NPrimeRegimesCovered
